@@ -66,6 +66,9 @@ def run(ctx, report):
             if not getattr(info, "ok_commit_counts", {}):
                 report.violate("ONCE", "%s/no-exit" % name, "core mutator without a recognisable successful exit", fn=f.path, sp=f.span, config=cfg)
         elif info.kind == "wrapper":
+            # a failed inner update is reported, never turned into a success
+            for callee, sp in mutators.swallowed_failures(ctx, info):
+                report.violate("ONCE", "%s/swallows-error" % name, "%s can return success although %s failed: the refusal (size limit, sequence overflow, signing, ill-typed value) is not reported" % (name, callee.split("::")[-1]), fn=f.path, sp=sp, config=cfg)
             if not info.ok_counts:
                 report.violate("ONCE", "%s/no-exit" % name, "wrapper without a recognisable exit", fn=f.path, sp=f.span, config=cfg)
             seen = {}
